@@ -101,6 +101,7 @@ type interpreter struct {
 	cur          *thread
 	killing      bool
 	preempts     int
+	randDraws    int
 	pendingAbort interface{}
 	hostDone     chan struct{}
 	wgs          map[*value]*wgState
